@@ -11,6 +11,7 @@ import (
 	"time"
 
 	"github.com/scrapli/scrapligo/driver/opoptions"
+	"github.com/scrapli/scrapligo/driver/options"
 	"github.com/scrapli/scrapligo/util"
 
 	"verif/internal/devsim"
@@ -39,6 +40,8 @@ type Desc struct {
 	// K2 (setting "paced"): the device is slow but alive: it pauses at byte K for 3 s, then goes on
 	// and falls silent for good after byte K2. The 4 s timeout runs from the start of the operation.
 	K2 int `json:"k2,omitempty"`
+	// ReadDelayUs > 0: the channel's read delay for this case (default otherwise).
+	ReadDelayUs int `json:"read_delay_us,omitempty"`
 }
 
 // Timeout settings:
@@ -172,6 +175,11 @@ func runOnce(d Desc, sc *scen.Scenario) mon.Result {
 	case "perop":
 		connWide = 4 * time.Second
 		perOp = []util.Option{opoptions.WithTimeoutOps(tShort), scen.WithCallbackTimeout(tShort)}
+		if sc.UserCmd != "" && !sc.PrivErrOK && d.CmdAt > 0 && d.K < d.CmdAt {
+			// the privilege change in front of the configuration lines is an operation of its own,
+			// governed by the connection-wide timeout
+			T = connWide
+		}
 	case "perop-long":
 		connWide = 100 * time.Millisecond
 		perOp = []util.Option{opoptions.WithTimeoutOps(900 * time.Millisecond), scen.WithCallbackTimeout(900 * time.Millisecond)}
@@ -188,7 +196,11 @@ func runOnce(d Desc, sc *scen.Scenario) mon.Result {
 		cfg.Fault, cfg.FaultAt = devsim.FaultNone, 0
 		cfg.WriteBlockN = d.J
 	}
-	s, err := sc.New(cfg, connWide)
+	var ctorExtra []util.Option
+	if d.ReadDelayUs > 0 {
+		ctorExtra = append(ctorExtra, options.WithReadDelay(time.Duration(d.ReadDelayUs)*time.Microsecond))
+	}
+	s, err := sc.New(cfg, connWide, ctorExtra...)
 	if err != nil {
 		return mon.Result{Verdict: mon.Inconclusive, Detail: "constructor: " + err.Error()}
 	}
@@ -217,6 +229,10 @@ func runOnce(d Desc, sc *scen.Scenario) mon.Result {
 	before := libIDs()
 	if yarm != nil {
 		yarm.Store(true)
+	}
+	slk := slack
+	if d.Setting == "conn-long" {
+		slk = 700 * time.Millisecond
 	}
 	hang := 20 * T
 	if hang < T+5*time.Second {
@@ -270,6 +286,11 @@ func runOnce(d Desc, sc *scen.Scenario) mon.Result {
 	el := r.at.Sub(t0)
 	obs := map[string]int64{"cases": 1}
 	tags := []string{"scenario=" + d.Scenario, "setting=" + d.Setting}
+	if got := s.G0().TimeoutOps; got != connWide {
+		// a per-operation timeout belongs to its operation: whatever happened, the connection-wide
+		// value that governs every later operation must be what was configured
+		return viol("c05/connection-wide-timeout-changed:"+d.Scenario, "the connection-wide timeout is %s after the operation, configured was %s (per-operation options: %d)", got, connWide, len(perOp))
+	}
 	if d.Setting == "paced" {
 		obs["paced_cases"]++
 	}
@@ -322,11 +343,11 @@ func runOnce(d Desc, sc *scen.Scenario) mon.Result {
 			return viol("c05/error-class:"+d.Scenario, "expected a timeout error, got %q", r.err)
 		}
 		tags = append(tags, "err="+map[bool]string{true: "timeout", false: "privilege"}[isTimeout])
-		if el > T+slack+held {
+		if el > T+slk+held {
 			if mon.LoadedSince(t00) {
 				return mon.Result{Verdict: mon.Inconclusive, Detail: fmt.Sprintf("load: returned after %s under load", el)}
 			}
-			return viol("c05/late:"+d.Setting+":"+d.Scenario, "timeout error returned after %s; configured timeout %s (+%s slack)", el.Round(time.Millisecond), T, slack)
+			return viol("c05/late:"+d.Setting+":"+d.Scenario, "timeout error returned after %s; configured timeout %s (+%s slack)", el.Round(time.Millisecond), T, slk)
 		}
 		tags = append(tags, "latency="+bucket(el-T))
 		if d.Setting == "writeblock" && s.Conn.CloseCalls() < 1 {
@@ -623,7 +644,7 @@ func gen(tier string, seed int64) []mon.Case {
 	var cs []mon.Case
 	n := 0
 	add := func(d Desc) {
-		cs = append(cs, mon.MkCase(fmt.Sprintf("c05/%05d-%s-%s-k%d-j%d", n, d.Scenario, d.Setting, d.K, d.J), d))
+		cs = append(cs, mon.MkCase(fmt.Sprintf("c05/%05d-%s-%s-k%d-j%d%s", n, d.Scenario, d.Setting, d.K, d.J, map[bool]string{true: fmt.Sprintf("-rd%d", d.ReadDelayUs)}[d.ReadDelayUs > 0]), d))
 		n++
 	}
 	segs := []devsim.Seg{{Mode: "fixed", Size: 7, Seed: seed}, {Mode: "mix", Size: 16, Seed: seed + 1, Delay: "gosched"}, {Mode: "whole", Seed: seed + 2}}
@@ -650,8 +671,15 @@ func gen(tier string, seed int64) []mon.Case {
 		for si, seg := range scSegs {
 			for _, k := range sc.Ks(st.S) {
 				add(Desc{Scenario: sc.Name, K: k, Setting: "conn", Seg: seg, Base: st.Base, S: st.S, Want: st.Want, CmdAt: st.CmdAt})
-				if sc.PerOp && (tier == "thorough" || k%2 == 0) {
-					add(Desc{Scenario: sc.Name, K: k, Setting: "perop", Seg: seg, Base: st.Base, S: st.S, Want: st.Want})
+				if sc.UserCmd != "" && !sc.PrivErrOK {
+					// per-operation timeout on a configuration send: one stall inside the privilege
+					// change (connection-wide timeout: 4 s) and the stalls inside the lines themselves
+					if !(k == st.CmdAt/2 || k >= st.CmdAt) {
+						continue
+					}
+				}
+				if sc.PerOp && (tier == "thorough" || k%2 == 0 || k == st.CmdAt/2) {
+					add(Desc{Scenario: sc.Name, K: k, Setting: "perop", Seg: seg, Base: st.Base, S: st.S, Want: st.Want, CmdAt: st.CmdAt})
 				}
 			}
 			if si == 0 && yield.Available {
@@ -707,8 +735,15 @@ func gen(tier string, seed int64) []mon.Case {
 				if tier == "thorough" {
 					ks = append(ks, st.S/4, st.S*3/4)
 				}
-				for _, k := range ks {
+				for i, k := range ks {
 					add(Desc{Scenario: sc.Name, K: k, Setting: "conn-long", Seg: seg, Base: st.Base, S: st.S, Want: st.Want, CmdAt: st.CmdAt})
+					if i == 0 && sc.Driver != "netconf" && sc.Pre != nil {
+						// (not for Open scenarios: a failed Open closes the channel, and how long THAT may
+						// take at a given read delay is C07's matter - see DESIGN.md, observations)
+						// the same with a read delay of 4 ms: pauses that grow with the read delay must
+						// still end at the deadline
+						add(Desc{Scenario: sc.Name, K: k, Setting: "conn-long", ReadDelayUs: 4000, Seg: seg, Base: st.Base, S: st.S, Want: st.Want, CmdAt: st.CmdAt})
+					}
 				}
 			}
 			if si == 0 && sc.IsOpen && sc.Driver == "generic" {
